@@ -6,6 +6,7 @@
   tables) and the outputs of completed nodes.
 -/
 import EinoV.Model.Engine
+import EinoV.Spec.DagWF
 
 namespace EinoV.Engine
 namespace DagRun
@@ -66,6 +67,66 @@ def JustTr {V} (ops : ValOps V) (r : Runner V) (x : V) : Trace V → Prop
   | [] => True
   | step :: older => (∀ n v, (n, v) ∈ step → Justified ops r (histOf r x older) n v) ∧ JustTr ops r x older
 
+
+/-! ### completeness vocabulary -/
+
+/-- every declared predecessor (that is a node) lists the channel among its successors -/
+def PredSucc {V} (r : Runner V) : Prop :=
+  ∀ m cs ds, (m, cs, ds) ∈ shapes (initChans r) → ∀ p, (p ∈ cs ∨ p ∈ ds) →
+    ∀ nd, r.call? p = some nd → m ∈ nd.successors
+
+
+def PredSuccC {V} (r : Runner V) : Prop :=
+  ∀ m cs ds, (m, cs, ds) ∈ shapes (initChans r) → ∀ p, p ∈ cs → ∀ nd, r.call? p = some nd →
+    m ∈ nd.controls ∨ m ∈ nd.branches.flatMap (·.ends)
+
+def PredSuccD {V} (r : Runner V) : Prop :=
+  ∀ m cs ds, (m, cs, ds) ∈ shapes (initChans r) → ∀ p, p ∈ ds → ∀ nd, r.call? p = some nd →
+    m ∈ nd.writeTo ∨ (m ∈ nd.branches.flatMap (·.ends) ∧ m ∉ nd.controls)
+
+
+/-- strict version of `SkippedIn`: only a node that *has* control predecessors can be skipped -/
+inductive SkippedS {V} (r : Runner V) (H : List (Done V)) : Key → Prop
+  | intro (n : Key) (hne : lookupList n r.ctrlPreds ≠ [])
+      (h : ∀ p, p ∈ lookupList n r.ctrlPreds → (¬ ∃ o, (p, o) ∈ H ∧ Deselects r p o n) → SkippedS r H p) :
+      SkippedS r H n
+
+/-- `n` is enabled given the completions `H`: it has control predecessors, each of them has
+    completed or is skipped, at least one completed and routed to `n`, and every data predecessor
+    has completed or is skipped -/
+def Enabled {V} (r : Runner V) (H : List (Done V)) (n : Key) : Prop :=
+  lookupList n r.ctrlPreds ≠ [] ∧
+  (∀ p, p ∈ lookupList n r.ctrlPreds → (∃ o, (p, o) ∈ H) ∨ SkippedS r H p) ∧
+  (∃ p, p ∈ lookupList n r.ctrlPreds ∧ ∃ o, (p, o) ∈ H ∧ RoutesC r p o n) ∧
+  (∀ p, p ∈ lookupList n r.dataPreds → (∃ o, (p, o) ∈ H) ∨ SkippedS r H p)
+
+
+/-- every node the specification calls enabled, given the completions of the older steps, is
+    among the tasks started so far (`tr` lists the steps newest first) -/
+def CompTr {V} (r : Runner V) (x : V) : Trace V → Prop
+  | [] => True
+  | step :: older => (∀ n, Enabled r (histOf r x older) n → n ∈ keysOfTr (step :: older)) ∧ CompTr r x older
+
+structure DagWF2 {V} (r : Runner V) : Prop where
+  pc : PredSuccC r
+  pd : PredSuccD r
+  p4 : ∀ n, lookupList n r.ctrlPreds ≠ [] → n ∈ akeys (initChans r)
+
+
+/-! ### the additional well-formedness, executable -/
+
+def dagWF2b {V} (r : Runner V) : Bool :=
+  let sh := shapes (initChans r)
+  sh.all (fun e => e.2.1.all (fun p =>
+    match r.call? p with
+    | none => true
+    | some nd => nd.controls.contains e.1 || (nd.branches.flatMap (·.ends)).contains e.1)) &&
+  sh.all (fun e => e.2.2.all (fun p =>
+    match r.call? p with
+    | none => true
+    | some nd => nd.writeTo.contains e.1 ||
+        ((nd.branches.flatMap (·.ends)).contains e.1 && !nd.controls.contains e.1))) &&
+  r.ctrlPreds.all (fun e => e.2.isEmpty || (akeys (initChans r)).contains e.1)
 
 end DagRun
 end EinoV.Engine
